@@ -191,6 +191,120 @@ Definition iter_fuel (fl : list (Z * Z)) (hl : list (Z * bool * Z)) : nat := S (
 Definition series_of_ts (t : pbts) : series :=
   mkSer (ts_l t) (concrete_iter (iter_fuel (ts_f t) (ts_h t)) (ts_f t) (ts_h t)).
 
+(* ---- concreteSeriesIterator with Seek: the index-based state of the Go struct.
+   floatsCur / histogramsCur start at -1; curValType None = ValNone.  An index out of range
+   (a Go panic) is the outer None.  sort.Search is applied to a monotone predicate (sorted
+   timestamps), where it returns the first index satisfying it: modelled as that. *)
+Record cstate := mkCst { st_fc : Z; st_hc : Z; st_cur : option vkind }.
+
+Definition cst_init : cstate := mkCst (-1) (-1) None.
+
+Definition zlen {A} (l : list A) : Z := Z.of_nat (length l).
+
+Definition f_at (fl : list (Z * Z)) (i : Z) : option (Z * Z) :=
+  if i <? 0 then None else nth_error fl (Z.to_nat i).
+Definition h_at (hl : list (Z * bool * Z)) (i : Z) : option (Z * bool * Z) :=
+  if i <? 0 then None else nth_error hl (Z.to_nat i).
+
+Definition obind {A B} (o : option A) (f : A -> option B) : option B :=
+  match o with Some a => f a | None => None end.
+
+Definition h_kind (h : Z * bool * Z) : vkind := if snd (fst h) then KFH else KH.
+Definition h_ts (h : Z * bool * Z) : Z := fst (fst h).
+
+(* Next() *)
+Definition cnext (fl : list (Z * Z)) (hl : list (Z * bool * Z)) (st : cstate) : option cstate :=
+  obind (if st_fc st + 1 <? zlen fl then option_map fst (f_at fl (st_fc st + 1)) else Some noTS) (fun pf =>
+  obind (if st_hc st + 1 <? zlen hl then option_map h_ts (h_at hl (st_hc st + 1)) else Some noTS) (fun ph =>
+  if pf <? ph then Some (mkCst (st_fc st + 1) (st_hc st) (Some KF))
+  else if ph <? pf then
+    obind (h_at hl (st_hc st + 1)) (fun h => Some (mkCst (st_fc st) (st_hc st + 1) (Some (h_kind h))))
+  else if (pf =? noTS) && (ph =? noTS) then Some (mkCst (zlen fl) (zlen hl) None)
+  else Some (mkCst (st_fc st + 1) (st_hc st + 1) (Some KF)))).
+
+(* first index i >= from with timestamp >= t, else the length *)
+Fixpoint search_from {A} (ts : A -> Z) (t : Z) (l : list A) (from : nat) (idx : Z) : Z :=
+  match l with
+  | [] => idx
+  | x :: r => match from with
+              | S f => search_from ts t r f (idx + 1)
+              | O => if t <=? ts x then idx else search_from ts t r O (idx + 1)
+              end
+  end.
+
+(* Seek(t): the new state and the returned value type *)
+Definition cseek (fl : list (Z * Z)) (hl : list (Z * bool * Z)) (t : Z) (st : cstate)
+  : option (cstate * option vkind) :=
+  let fc := if st_fc st =? -1 then 0 else st_fc st in
+  let hc := if st_hc st =? -1 then 0 else st_hc st in
+  if (zlen fl <=? fc) && (zlen hl <=? hc) then Some (mkCst fc hc (st_cur st), None)
+  else
+    (* no-op check *)
+    obind (match st_cur st with
+           | Some KF => option_map (fun p => t <=? fst p) (f_at fl fc)
+           | Some _ => option_map (fun h => t <=? h_ts h) (h_at hl hc)
+           | None => Some false
+           end) (fun noop =>
+    if noop then Some (mkCst fc hc (st_cur st), st_cur st)
+    else
+      let fc := search_from fst t fl (Z.to_nat fc) 0 in
+      let hc := search_from h_ts t hl (Z.to_nat hc) 0 in
+      if (fc <? zlen fl) && (hc <? zlen hl) then
+        obind (f_at fl fc) (fun f => obind (h_at hl hc) (fun h =>
+          if fst f <=? h_ts h then
+            Some (if fst f =? h_ts h then mkCst fc hc (Some KF) else mkCst fc (hc - 1) (Some KF), Some KF)
+          else
+            (* histogram selected: the float cursor steps back, setCurrentHistogram picks the kind *)
+            Some (mkCst (fc - 1) hc (Some (h_kind h)), Some (h_kind h))))
+      else if fc <? zlen fl then Some (mkCst fc hc (Some KF), Some KF)
+      else if hc <? zlen hl then
+        obind (h_at hl hc) (fun h => Some (mkCst fc hc (Some (h_kind h)), Some (h_kind h)))
+      else Some (mkCst fc hc None, None)).
+
+(* At / AtHistogram / AtFloatHistogram *)
+Definition cat (fl : list (Z * Z)) (hl : list (Z * bool * Z)) (st : cstate) : option sample :=
+  match st_cur st with
+  | Some KF => option_map (fun p => mkS (fst p) KF (snd p)) (f_at fl (st_fc st))
+  | Some _ => option_map hist_sample (h_at hl (st_hc st))
+  | None => None
+  end.
+
+Fixpoint cdrain (fuel : nat) (fl : list (Z * Z)) (hl : list (Z * bool * Z)) (st : cstate)
+  : option (list sample) :=
+  match fuel with
+  | O => Some []
+  | S fuel' =>
+      obind (cnext fl hl st) (fun st' =>
+      match st_cur st' with
+      | None => Some []
+      | Some _ => obind (cat fl hl st') (fun s => option_map (cons s) (cdrain fuel' fl hl st'))
+      end)
+  end.
+
+Fixpoint cnexts (n : nat) (fl : list (Z * Z)) (hl : list (Z * bool * Z)) (st : cstate) : option cstate :=
+  match n with O => Some st | S n' => obind (cnext fl hl st) (cnexts n' fl hl) end.
+
+(* a probe: fresh iterator, `skip` calls of Next, Seek(t), then read the current sample and
+   drain with Next.  Some None = Seek returned ValNone. *)
+Definition seek_probe (fl : list (Z * Z)) (hl : list (Z * bool * Z)) (skip : nat) (t : Z)
+  : option (option (list sample)) :=
+  obind (cnexts skip fl hl cst_init) (fun st =>
+  obind (cseek fl hl t st) (fun r =>
+  match snd r with
+  | None => Some None
+  | Some _ =>
+      obind (cat fl hl (fst r)) (fun s =>
+      option_map (fun l => Some (s :: l)) (cdrain (S (length fl + length hl)) fl hl (fst r)))
+  end)).
+
+(* what Seek must do according to chunkenc.Iterator: stand on the first sample at or after
+   the current one whose timestamp is >= t *)
+Fixpoint drop_before (t : Z) (l : list sample) : list sample :=
+  match l with [] => [] | s :: r => if s_t s <? t then drop_before t r else l end.
+
+Definition seek_spec (all : list sample) (skip : nat) (t : Z) : list sample :=
+  drop_before t (skipn (pred skip) all).
+
 (* slices.SortFunc by labels.Compare; modelled as insertion sort (the inputs of remote read
    have pairwise distinct label sets, so stability does not matter) *)
 Fixpoint insert_series (s : series) (l : list series) : list series :=
@@ -305,6 +419,35 @@ Definition client_chunked (mint maxt : Z) (fs : list frame) : list series :=
 
 Definition chunked_path (maxBytes : Z) (ext : labels) (mint maxt : Z) (ss : list cseries) : list series :=
   client_chunked mint maxt (stream_frames maxBytes ext ss).
+
+(* ------------------------------------------------------------------ read.go: the querier on top of a ReadClient *)
+
+Definition str_mem (n : str) (l : list str) : bool := existsb (str_eqb n) l.
+
+(* querier.addExternalLabels: an equality matcher is added for every external label that has
+   no user-supplied matcher of the same name; the names of the added ones are returned *)
+Definition added_names (ext : labels) (mnames : list str) : list str :=
+  map fst (filter (fun l => negb (str_mem (fst l) mnames)) ext).
+
+(* seriesFilter.Labels: labels.NewBuilder(l).Del(names...).Labels(); the builder also drops
+   labels with an empty value *)
+Definition strip_labels (names : list str) (l : labels) : labels :=
+  filter (fun p => negb (str_mem (fst p) names) && negb (match snd p with [] => true | _ => false end)) l.
+
+Definition strip_series (names : list str) (l : list series) : list series :=
+  map (fun s => mkSer (strip_labels names (ser_l s)) (ser_s s)) l.
+
+(* querier.Select through a client that got the chunked (true) or the sampled (false)
+   response; the serving side and the querier are configured with the same external labels *)
+Definition querier_path (chunkedResp : bool) (limit maxBytes : Z) (ext : labels) (mnames : list str)
+           (sortSeries : bool) (mint maxt : Z) (direct : list series) (chunks : list cseries)
+  : result (list series) :=
+  let names := added_names ext mnames in
+  if chunkedResp then Ok (strip_series names (chunked_path maxBytes ext mint maxt chunks))
+  else match sampled_path limit ext sortSeries direct with
+       | Ok l => Ok (strip_series names l)
+       | ErrLimit => ErrLimit
+       end.
 
 (* ------------------------------------------------------------------ specification side *)
 
